@@ -283,6 +283,16 @@ impl<AnyLoader: Loader> Context<AnyLoader> {
     ) -> Result<(), Error> {
         let name = file.source().name();
         let pos = &file.source().imported;
+        #[cfg(feature = "verif_hooks")]
+        crate::verif::emit(
+            "lock",
+            name,
+            if self.loading.contains_key(name) {
+                "busy"
+            } else {
+                "free"
+            },
+        );
         if let Some(old) = self.loading.insert(name.into(), pos.clone()) {
             Err(Error::ImportLoop(
                 as_module,
@@ -300,6 +310,8 @@ impl<AnyLoader: Loader> Context<AnyLoader> {
     /// Each file that is locked (by [`Self::find_file`]) needs to be unlocked
     /// when processing of it is done.
     pub fn unlock_loading(&mut self, file: &SourceFile) {
+        #[cfg(feature = "verif_hooks")]
+        crate::verif::emit("unlock", file.path(), "");
         self.loading.remove(file.path());
     }
 }
